@@ -261,9 +261,9 @@ def r5_insertion(ctx):
 
 
 RULES = [
-    Rule('C10.R1', 'copies own their mutable state; copied children have the copy as parent; tombstones not copied', r1_copy_ownership, floor=5),
-    Rule('C10.R2', 'every children.append/insert is paired with parent = owner', r2_parent_child_pairing, floor=8),
-    Rule('C10.R3', 'iterations over children skip tombstones; one tombstone marker', r3_tombstones, floor=14),
-    Rule('C10.R4', 'Segment.set pads before it stores (shared with C17.R4)', r4_set_pads, floor=9),
-    Rule('C10.R5', 'insertion index by map position after a tombstone sweep; add_* insert there', r5_insertion, floor=8),
+    Rule('C10.R1', 'copies own their mutable state; copied children have the copy as parent; tombstones not copied', r1_copy_ownership, floor=3),
+    Rule('C10.R2', 'every children.append/insert is paired with parent = owner', r2_parent_child_pairing, floor=6),
+    Rule('C10.R3', 'iterations over children skip tombstones; one tombstone marker', r3_tombstones, floor=10),
+    Rule('C10.R4', 'Segment.set pads before it stores (shared with C17.R4)', r4_set_pads, floor=6),
+    Rule('C10.R5', 'insertion index by map position after a tombstone sweep; add_* insert there', r5_insertion, floor=6),
 ]
